@@ -106,6 +106,13 @@ claim("C17", "exploration",
       "Trusted: the decision table in incrate/c17_gate.rs; authentication / access control are stubs (never consulted by the gating code). Payload protection is taken to cover the serialized payload only (a DATA without payload is not generated).",
       "DESIGN.md section 2, C17")
 
+claim("C18", "exploration",
+      "model-based property-based testing: permissions and governance documents are generated from a grammar, signed in-process with the shipped Permissions CA key and loaded by the real access control plugin; decisions are compared with a reference evaluator over the generator's AST; signed documents are altered byte by byte, re-signed by another CA, and spliced",
+      "Scenario 0: generated governance (domain rules with id / range / open-range sets, topic rules with patterns and access-control flags) and permissions documents (grants for this / another subject, valid / expired / not yet valid, allow / deny rules with domain sets, publish / subscribe criteria with topic patterns * ? [a-c] [!a] and optional partition lists, default ALLOW / DENY), S/MIME-signed like sign-test-configurations.sh, loaded through validate_local_permissions / validate_remote_permissions via data: URIs; 16 queries per case through check_create_datawriter / datareader / topic and check_remote_datawriter / datareader / topic. The reference evaluator implements: governance first matching topic rule decides protected / unprotected; otherwise first applicable rule of the subject's first currently valid grant, else the grant's default; own pattern matcher; domain-set membership; loading must fail exactly when no domain rule covers the domain or no valid grant names the subject. "
+      "Scenario 1: one byte of the signed content of either document altered (must be rejected), any byte anywhere altered (counted), document signed by another CA of the same name (must be rejected), content of another validly signed document under this signature (must be rejected).",
+      "Trusted: the reference evaluator and pattern matcher in incrate/c18_access.rs; openssl for producing signatures. Every entity is in the default partition (the plugin API has no partitions). Topic-kind queries are asserted only when the read and write flags of the topic rule agree. Validity windows are decades away from the wall clock.",
+      "DESIGN.md section 2, C18")
+
 claim("C02", "exploration",
       "fault-injection property-based testing: generated fault plans (drop / duplicate / delay per datagram) over a bounded run of a real Writer and 1-2 real Readers, followed by fault-free rounds; liveness decided as a fixpoint test on a projection of the protocol state, plus a quietness check",
       "A generated fault plan decides the fate of every datagram (DATA, DATAFRAG, HEARTBEAT, GAP, ACKNACK, NACKFRAG) exchanged between a real reliable Writer and real reliable Readers during generated writes / heartbeat ticks / timer steps / cache cleanings. Then faults stop and rounds {heartbeat tick, deliver all, fire timers to quiescence} run. "
